@@ -4,6 +4,8 @@
  *        -> ok e_s e_n l_s l_n status | err <kind>      one context for the whole run: the record of
  *           each case is stored into the segment the context has open (PROTOCOL.md offsets), so
  *           anything a context remembers from earlier calls shows
+ *   sgo <path> real_s real_n mono_s mono_n <what>  as seg, but between the open and the call the header changes under the
+ *        client (1: generation odd, 2: version 0, 3: generation 0): it has no snapshot yet and answers from the empty record
  *   siz                                       ->  sizes and offsets of the public structs
  * Built by the check with: gcc cdriver.c -I<repo>/clock-bound-ffi/include -L<target> -lclockbound -rdynamic
  * This program defines clock_gettime, which takes precedence over libc's for libclockbound.so too. */
@@ -178,7 +180,8 @@ int main(void) {
             fflush(stdout);
             continue;
         }
-        if (sscanf(line, "%15s %2047s %lld %lld %lld %lld", tag, path, &rs, &rn, &ms, &mn) != 6) { printf("bad-line\n"); fflush(stdout); continue; }
+        long long what = 0;   /* sgo: what the daemon does to the header between the open and the call (1 generation odd, 2 version 0, 3 generation 0) */
+        if (sscanf(line, "%15s %2047s %lld %lld %lld %lld %lld", tag, path, &rs, &rn, &ms, &mn, &what) < 6) { printf("bad-line\n"); fflush(stdout); continue; }
         /* one error struct for the whole run, as a caller retrying in a loop would use it: a failed
            open must overwrite every field of it */
         static clockbound_err err;
@@ -188,6 +191,15 @@ int main(void) {
         if (!ctx) { printf("K:"); print_err(&err); printf(" N:-\n"); fflush(stdout); continue; }
         printf("K:ok N:");
         if (!status_word_valid(path)) { printf("skip\n"); clockbound_close(ctx); fflush(stdout); continue; }
+        if (strcmp(tag, "sgo") == 0 && what) {
+            int fd = open(path, O_RDWR);
+            uint16_t g = 0, z = 0;
+            if (fd < 0 || pread(fd, &g, 2, 14) != 2) abort();
+            if (what == 1) { g |= 1; if (pwrite(fd, &g, 2, 14) != 2) abort(); }
+            else if (what == 2) { if (pwrite(fd, &z, 2, 12) != 2) abort(); }
+            else { if (pwrite(fd, &z, 2, 14) != 2) abort(); }
+            close(fd);
+        }
         v_real.tv_sec = rs; v_real.tv_nsec = rn; v_mono.tv_sec = ms; v_mono.tv_nsec = mn;
         clockbound_now_result res; memset(&res, 0, sizeof res);
         vclock_on = 1;
